@@ -61,4 +61,6 @@ func (t *TransactionCancelTimer) Stop() {
 		return
 	}
 	close(t.done)
+	// a second Stop (e.g. confirm racing with the expiry, or the rollback stopping its own timer) must not close again
+	t.done = nil
 }
